@@ -363,6 +363,10 @@ def select_configs(tier="quick"):
     out = []
     for n, k in ([(6, 2), (8, 3), (10, 10), (7, 1)] if tier == "quick" else [(6, 2), (8, 3), (10, 10), (7, 1), (20, 5), (30, 7)]):
         out.append(dict(env="flp", n=n, k=k))
+    # more than 25 points (pairwise-distance helpers switch algorithm with the size) and the default size
+    out.append(dict(env="flp", n=40, k=4))
+    if tier != "quick":
+        out.append(dict(env="flp", n=100, k=10))
     out.append(dict(env="flp", n=8, k=3, dist="normal", std=1.0))
     out.append(dict(env="flp", n=12, k=2, dist="normal", std=2.0))
     for items, sets, k in ([(8, 5, 2), (12, 6, 3), (10, 4, 4), (9, 5, 1)] if tier == "quick" else [(8, 5, 2), (12, 6, 3), (10, 4, 4), (9, 5, 1), (40, 15, 5)]):
